@@ -5,7 +5,7 @@
     ([Unique] sound and complete, [NoSolution] only without solutions, [Definite] guidance never
     excluding a solution) is really violated.  [f14_refuted]: on the unchanged tree the
     contract IS violated inside the known class [f14_class] (DESIGN §5 F14). *)
-From Chalk Require Import Logic.Contract.
+From Chalk Require Import Logic.Contract Logic.Meta.
 
 Theorem eval_correct : forall (fuel : nat) (P : program) (env : list clause) (rho : list ty) (g : goal) (b : bool),
   rr (allc P env) -> eval_goal fuel P env rho g = Some b -> (b = true <-> sat P env rho g).
@@ -28,3 +28,35 @@ Proof. exact ContractExamples.f14_refuted. Qed.
 Check f14_refuted :
   f14_class ContractExamples.P14 ContractExamples.q14 = true /\
   ~ contract ContractExamples.P14 [] ContractExamples.q14 ContractExamples.slg14.
+
+Theorem f1_refuted :
+  f1_class ContractExamples.P1 ContractExamples.q1 = true /\
+  ~ contract ContractExamples.P1 [] ContractExamples.q1 ContractExamples.slg1.
+Proof. exact ContractExamples.f1_refuted. Qed.
+Check f1_refuted :
+  f1_class ContractExamples.P1 ContractExamples.q1 = true /\
+  ~ contract ContractExamples.P1 [] ContractExamples.q1 ContractExamples.slg1.
+
+Theorem placeholder_generic : forall (P : program) (env : list clause) (rho : list ty) (g : goal) (k : N) (t : ty),
+  (phb_clauses (pclauses P) <= k)%N -> (phb_clauses env <= k)%N -> (phb_goal g <= k)%N ->
+  negfree g = true -> wf_goal g = true -> wf_cls (allc P env) -> ground t ->
+  sat P env rho g -> sat P env (map (rp (one k t)) rho) g.
+Proof. exact Meta.placeholder_generic. Qed.
+Check placeholder_generic : forall (P : program) (env : list clause) (rho : list ty) (g : goal) (k : N) (t : ty),
+  (phb_clauses (pclauses P) <= k)%N -> (phb_clauses env <= k)%N -> (phb_goal g <= k)%N ->
+  negfree g = true -> wf_goal g = true -> wf_cls (allc P env) -> ground t ->
+  sat P env rho g -> sat P env (map (rp (one k t)) rho) g.
+
+Theorem unique_sound_exact : forall (fuel : nat) (P : program) (env : list clause) (q : query)
+    (vubs : list N) (pat tau : list ty),
+  rr (allc P env) -> wf_cls (allc P env) -> negfree (q_body q) = true -> wf_goal (q_body q) = true ->
+  sound_half fuel P env q vubs pat = Some true ->
+  length tau = length vubs -> Forall ground tau ->
+  sat P env (rev (app_ans pat tau)) (q_body q).
+Proof. exact Meta.unique_sound_exact. Qed.
+Check unique_sound_exact : forall (fuel : nat) (P : program) (env : list clause) (q : query)
+    (vubs : list N) (pat tau : list ty),
+  rr (allc P env) -> wf_cls (allc P env) -> negfree (q_body q) = true -> wf_goal (q_body q) = true ->
+  sound_half fuel P env q vubs pat = Some true ->
+  length tau = length vubs -> Forall ground tau ->
+  sat P env (rev (app_ans pat tau)) (q_body q).
